@@ -29,10 +29,11 @@ class Ctx:
         self.jobs = min(16, os.cpu_count() or 4)
         self.t0 = time.time()
         self.search = False  # True while running the failing-input search (bigger, truth-only)
+        self.intensify = False  # True when a leaf function's translation tie could not be established: explore 4× deeper
 
     def n(self, quick: int, thorough: int) -> int:
         base = quick if self.tier == "quick" else thorough
-        return base * (10 if self.search and self.tier == "quick" else 1)
+        return base * (10 if self.search and self.tier == "quick" else 4 if self.intensify and self.tier == "quick" else 1)
 
     def sub(self, tag) -> random.Random:
         return random.Random(f"{self.pid}-{self.seed}-{tag}")
